@@ -45,6 +45,7 @@ THEOREMS = [
     'C17_surplus_surface_params_refuted',
     'C17_gq_short_params_refuted',
     'C17_lattice_no_opt_rejected',
+    'C17_lattice_no_opt_rejected_general',
     'C17_to_fillid_no_opt',
     'C17_lattice_dims_exact',
     'C17_lattice_dims_rejected',
